@@ -17,6 +17,27 @@ Attached(r, p) == {ca \in (1..Len(r.cells)) \X (1..Len(r.cells[1])) : r.cells[ca
 ToPointsMean(r) == \A p \in 0..(r.np - 1) : \A k \in 1..r.ncomp :
                       LET A == Attached(r, p) IN
                       A # {} => Abs(Cardinality(A) * r.tp[p * r.ncomp + k] - SumOver(A, LAMBDA ca : r.vals[ca[1]][ca[2]][k])) <= Cardinality(A) + 1
+\* flag variants.  V: a single quadrature point per cell is broadcast to all points of the cell; more quadrature points than
+\* points per cell are trimmed to the first ones (documented)
+V(r, c, a, k) == IF Len(r.vals[c]) = 1 THEN r.vals[c][1][k] ELSE r.vals[c][a][k]
+ToPointsBroadcastTrim(r) == \A p \in 0..(r.np - 1) : \A k \in 1..r.ncomp :
+                      LET A == Attached(r, p) IN
+                      A # {} => Abs(Cardinality(A) * r.tp[p * r.ncomp + k] - SumOver(A, LAMBDA ca : V(r, ca[1], ca[2], k))) <= Cardinality(A) + 1
+\* mean = True: every point of a cell gets the cell mean (equal quadrature weights in the issued regions), then the mean over cells
+CellSum(r, c, k) == SumOver(1..Len(r.vals[c]), LAMBDA a : r.vals[c][a][k])
+ToPointsCellMean(r) == \A p \in 0..(r.np - 1) : \A k \in 1..r.ncomp :
+                      LET A == Attached(r, p)  nq == Len(r.vals[1]) IN
+                      A # {} => Abs(nq * Cardinality(A) * r.tp[p * r.ncomp + k] - SumOver(A, LAMBDA ca : CellSum(r, ca[1], k))) <= nq * Cardinality(A) + nq
+\* average = False: one row per (cell, local point), not averaged
+ToPointsNoAverage(r) == LET ppc == Len(r.cells[1]) IN
+                        /\ Len(r.tp) = Len(r.cells) * ppc * r.ncomp
+                        /\ \A c \in 1..Len(r.cells) : \A a \in 1..ppc : \A k \in 1..r.ncomp :
+                              Abs(r.tp[((c - 1) * ppc + a - 1) * r.ncomp + k] - V(r, c, a, k)) <= 1
+\* extrapolation without averaging: the field's nodal value at every (cell, local point)
+ExtrapolateNoAverage(r) == LET ppc == Len(r.cells[1]) IN
+                           /\ Len(r.extrapolated) = Len(r.cells) * ppc * r.ncomp
+                           /\ \A c \in 1..Len(r.cells) : \A a \in 1..ppc : \A k \in 1..r.ncomp :
+                                 Abs(r.extrapolated[((c - 1) * ppc + a - 1) * r.ncomp + k] - r.nodal[r.cells[c][a] * r.ncomp + k]) <= r.tol
 \* reported stresses: Kirchhoff = P F^T, Cauchy = P F^T / det F   (per point: 9 entries, J scalar)
 T2(a, p, i, j) == a[(p - 1) * 9 + 3 * (i - 1) + j]
 I3 == (1..3) \X (1..3)
@@ -41,10 +62,16 @@ MomentSum(r) ==
           <= r.XS * (8 + 4 * Len(r.bpoints))
 Clauses(r) == CASE r.kind = "project" -> {"ProjectReproduces"} [] r.kind = "integral" -> {"ProjectPreservesIntegral"}
                 [] r.kind = "extrapolate" -> {"ExtrapolateMultilinear"} [] r.kind = "topoints" -> {"ToPointsMean"}
+                [] r.kind = "topoints-bt" -> {"ToPointsBroadcastTrim"} [] r.kind = "topoints-mean" -> {"ToPointsCellMean"}
+                [] r.kind = "topoints-noavg" -> {"ToPointsNoAverage"} [] r.kind = "extrapolate-noavg" -> {"ExtrapolateNoAverage"}
+                [] r.kind = "project-noavg" -> {"ProjectNoAverage"}
                 [] r.kind = "stress" -> {"KirchhoffIsPFt", "CauchyIsPFtOverJ"} [] r.kind = "celldata" -> {"CellDataIsMean"}
                 [] r.kind = "forcemoment" -> {"ForceSum", "MomentSum"} [] r.kind = "force" -> {"ForceSum"}
 Holds(c, r) == CASE c = "ProjectReproduces" -> ProjectReproduces(r) [] c = "ProjectPreservesIntegral" -> ProjectPreservesIntegral(r)
                  [] c = "ExtrapolateMultilinear" -> ExtrapolateMultilinear(r) [] c = "ToPointsMean" -> ToPointsMean(r)
+                 [] c = "ToPointsBroadcastTrim" -> ToPointsBroadcastTrim(r) [] c = "ToPointsCellMean" -> ToPointsCellMean(r)
+                 [] c = "ToPointsNoAverage" -> ToPointsNoAverage(r) [] c = "ExtrapolateNoAverage" -> ExtrapolateNoAverage(r)
+                 [] c = "ProjectNoAverage" -> ExtrapolateNoAverage(r)      \* same statement for the (discontinuous) L2 projection
                  [] c = "KirchhoffIsPFt" -> KirchhoffIsPFt(r) [] c = "CauchyIsPFtOverJ" -> CauchyIsPFtOverJ(r)
                  [] c = "CellDataIsMean" -> CellDataIsMean(r) [] c = "ForceSum" -> ForceSum(r) [] c = "MomentSum" -> MomentSum(r)
 Applicable(r) == Clauses(r)
